@@ -194,6 +194,7 @@ func VerifC03Driver() {
 			}
 			pa(err != nil && errors.Is(err, ErrTableNotLockedForWriting), "C03.wrongtable.err")
 			pa(other.NumObjects(wtxn) == 0, "C03.wrongtable.unchanged")
+			pa(other.Revision(wtxn) == 0 && other.Revision(d.db.ReadTxn()) == 0, "C03.wrongtable.revision-unchanged")
 			pa(other.Revision(wtxn) == 0, "C09.wrongtable.revision")
 			vnd.Cover("C03.wrong-table")
 		case wClosedTxn:
